@@ -521,7 +521,7 @@ Proof. intros T N. exact (crack_multi_entry N). Qed.
    _in_matrix_calculation True, and every later plain call obj(inc, out, f) on 2-d angle arrays was
    evaluated by the optimised driver, i.e. with the incident angles of the FIRST ROW:
    obj(inc, out, f)[k][j, i] = S_k(inc[0, i], out[j, i]) instead of S_k(inc[j, i], out[j, i]).
-   Concrete witness that used to differ (replayed on the library at the time, .work/prover_C09_TIE.md):
+   Concrete witness that used to differ (replayed on the library at the time, notes/prover_C09_TIE.md):
      obj = CrackCentreScat(...); obj.as_single_freq_matrices(1e6, 4, ["XX"])   # raises ValueError
      obj(inc, out, 1e6)["LL"][1, 0]  with  inc = [[0.], [1.]], out = [[0.], [0.]]
    answered S_LL(0, 0) (first-row incident angle) while a fresh object answers S_LL(1, 0).
